@@ -36,6 +36,7 @@ def configs(tier, seed):
         return [dict(name="lifecycle R=5 L=2", h="life", R=5, L=2, num=1, den=2, split="balanced"),
                 dict(name="lifecycle R=7 L=1", h="life", R=7, L=1, num=1, den=2, split="balanced"),
                 dict(name="lifecycle R=5 L=1 random-holdout", h="life", R=5, L=1, num=2, den=5, split="random"),
+                dict(name="lifecycle R=5 L=1, labels differing only by surrounding white space", h="life", R=5, L=1, num=1, den=2, split="balanced", ws=True),
                 dict(name="lifecycle R=5 L=1, id spaces of 300 (ids past 256 in use)", h="life", R=5, L=1, num=1, den=2, split="balanced", big_map=300)]
     out = [dict(name="lifecycle R=5 L=3", h="life", R=5, L=3, num=1, den=2, split="balanced"),
            dict(name="lifecycle R=5 L=4", h="life", R=5, L=4, num=1, den=2, split="balanced"),
@@ -45,6 +46,7 @@ def configs(tier, seed):
            dict(name="lifecycle R=5 L=2 random-holdout", h="life", R=5, L=2, num=2, den=5, split="random"),
            dict(name="lifecycle R=5 L=3 two thirds", h="life", R=5, L=3, num=2, den=3, split="balanced")]
     out.append(dict(name="lifecycle R=5 L=2, id spaces of 300 (ids past 256 in use)", h="life", R=5, L=2, num=1, den=2, split="balanced", big_map=300))
+    out.append(dict(name="lifecycle R=7 L=2, labels differing only by surrounding white space", h="life", R=7, L=2, num=1, den=2, split="balanced", ws=True))
     out.append(dict(name="lifecycle R=7 L=1, id spaces of 600", h="life", R=7, L=1, num=1, den=2, split="balanced", big_map=600))
     # generated screen structures (retro_common.generated_family), names replaced by names of different lengths
     from .retro_common import family
@@ -65,7 +67,11 @@ def _rows(cfg):
     if cfg.get("fam"):
         from .retro_common import family
         return [(RENAME[r[0]], RENAME[r[1]], r[2], RENAME[r[3]], r[4], r[5]) for r in family(cfg["fam"])]
-    return (ROWS5 if cfg["R"] == 5 else ROWS7)[:cfg["R"]]
+    rows = (ROWS5 if cfg["R"] == 5 else ROWS7)[:cfg["R"]]
+    if cfg.get("ws"):
+        # labels that differ only by surrounding white space are different samples / treatments ("s2 " next to "s2")
+        rows = [tuple(v + " " if (i, k) in ((0, 0), (2, 3)) else " " + v if (i, k) == (3, 1) else v for k, v in enumerate(r)) for i, r in enumerate(rows)]
+    return rows
 
 
 def fixtures(cfg):
